@@ -92,7 +92,39 @@ def width(ty: str) -> int:
 
 
 def size_of(ty: str) -> int:
-    return {"f32": 4, "f64": 8, "ptr": 8}.get(ty) or (width(ty) + 7) // 8
+    return {"f16": 2, "bf16": 2, "f32": 4, "f64": 8, "ptr": 8}.get(ty) or (width(ty) + 7) // 8
+
+
+# float formats: name -> (storage bits, significand bits incl. the hidden one, LLVM IR type name).
+# f80/f128 are only named (no reference arithmetic): they occur in the translate-or-reject boundary family.
+FLOAT_FORMATS = {"f16": (16, 11, "half"), "bf16": (16, 8, "bfloat"), "f32": (32, 24, "float"),
+                 "f64": (64, 53, "double"), "f80": (80, 64, "x86_fp80"), "f128": (128, 113, "fp128")}
+LEAN_TYPES = {"i1", "i8", "i16", "i32", "i64", "f32", "f64", "ptr"}   # what the Lean model `llvm` reads
+_TY = None
+
+
+def prog_types(prog: Any) -> set[str]:
+    """all type names that occur in a program"""
+    import re
+
+    global _TY
+    if _TY is None:
+        _TY = re.compile(r"i\d+|b?f\d+|ptr")
+    out: set[str] = set()
+
+    def walk(x: Any) -> None:
+        if isinstance(x, (list, tuple)):
+            for y in x:
+                walk(y)
+        elif isinstance(x, str) and _TY.fullmatch(x):
+            out.add(x)
+
+    walk(prog)
+    return out
+
+
+def float_bits(ty: str) -> int:
+    return FLOAT_FORMATS[ty][0]
 
 
 def sx(n: int, w: int) -> int:
@@ -117,6 +149,53 @@ def round32(x: float) -> float:
         return struct.unpack("<f", struct.pack("<f", x))[0]
     except OverflowError:
         return math.copysign(math.inf, x)
+
+
+def bits_f16(b: int) -> float:
+    return struct.unpack("<e", struct.pack("<H", b))[0]
+
+
+def f16_bits(x: float) -> int:
+    """bit pattern of the IEEE half nearest to x (ties to even; overflow -> infinity)"""
+    try:
+        return struct.unpack("<H", struct.pack("<e", x))[0]
+    except OverflowError:
+        return 0x7C00 | (0x8000 if x < 0 else 0)
+
+
+def bits_bf16(b: int) -> float:
+    return bits_f32(b << 16)   # bfloat16 = the upper half of a binary32
+
+
+def bf16_bits(x: float) -> int:
+    """bit pattern of the bfloat16 nearest to x (ties to even).  x -> binary32 -> bfloat16 would round twice;
+    round-to-odd in the first step makes the second rounding the only one that matters."""
+    if x != x:
+        return 0x7FC0
+    if math.isinf(x):
+        return 0x7F80 | (0x8000 if x < 0 else 0)
+    sign = 0x8000 if math.copysign(1.0, x) < 0 else 0
+    a = abs(x)
+    if a == 0.0:
+        return sign
+    m, e = math.frexp(a)            # a = m * 2**e, 0.5 <= m < 1
+    e_unb = e - 1                   # a = (2m) * 2**e_unb, 1 <= 2m < 2
+    if e_unb < -126:
+        q = -126 - 7                # subnormal grid 2**-133
+    else:
+        q = e_unb - 7               # 8 significant bits
+    from fractions import Fraction
+
+    n = Fraction(a) / (Fraction(2) ** q)
+    k = n.numerator // n.denominator
+    r = n - k
+    if r > Fraction(1, 2) or (r == Fraction(1, 2) and k & 1):
+        k += 1
+    val = Fraction(k) * (Fraction(2) ** q)
+    if val >= Fraction(2) ** 128:
+        return sign | 0x7F80
+    f = float(val)                  # exact: at most 9 significant bits
+    return sign | (struct.unpack("<I", struct.pack("<f", f))[0] >> 16)
 
 
 def f32_bits(x: float) -> int:
@@ -236,11 +315,39 @@ def ref_fcmp(p: int, x: float, y: float) -> int:
 
 
 def fval(ty: str, bits: int) -> float:
-    return bits_f32(bits) if ty == "f32" else bits_f64(bits)
+    if ty == "f32":
+        return bits_f32(bits)
+    if ty == "f64":
+        return bits_f64(bits)
+    if ty == "f16":
+        return bits_f16(bits)
+    if ty == "bf16":
+        return bits_bf16(bits)
+    raise Unsupported("no reference arithmetic for " + ty)
 
 
 def fbits(ty: str, x: float) -> int:
-    return f32_bits(x) if ty == "f32" else f64_bits(x)
+    if ty == "f32":
+        return f32_bits(x)
+    if ty == "f64":
+        return f64_bits(x)
+    if ty == "f16":
+        return f16_bits(x)
+    if ty == "bf16":
+        return bf16_bits(x)
+    raise Unsupported("no reference arithmetic for " + ty)
+
+
+MIN_NORMAL = {"f16": 2.0 ** -14, "bf16": 2.0 ** -126}
+
+
+def narrow_result(ty: str, r: float) -> int:
+    """result of an arithmetic operation in a 16-bit format.  LLVM computes these in binary32 and rounds back
+    (exact for + - * / because 24 >= 2p+2); a result in the subnormal range of the format is excluded: the
+    two-step rounding (and the hardware's bfloat16 conversion, which flushes) is not modelled there."""
+    if ty in MIN_NORMAL and r == r and r != 0.0 and abs(r) < MIN_NORMAL[ty]:
+        raise Poison
+    return fbits(ty, r)
 
 
 def ref_fbin(k: str, ty: str, a: int, b: int) -> int:
@@ -265,7 +372,7 @@ def ref_fbin(k: str, ty: str, a: int, b: int) -> int:
         else:
             r = math.fmod(x, y)
     # double arithmetic on float32 operands followed by one rounding is the correctly rounded float32 result
-    return fbits(ty, r)
+    return narrow_result(ty, r)
 
 
 def ref_cast(k: str, ft: str, tt: str, a: int, ovf: int, nneg: int) -> int:
@@ -289,9 +396,13 @@ def ref_cast(k: str, ft: str, tt: str, a: int, ovf: int, nneg: int) -> int:
         return a
     if k == "sitofp":
         s = sx(a, width(ft))
+        if tt in ("f16", "bf16"):
+            if width(ft) > 16:
+                raise Poison   # computed through binary32 by LLVM: two roundings, not modelled
+            return fbits(tt, float(s))
         return f32_bits(int_to_float(s, 24)) if tt == "f32" else f64_bits(int_to_float(s, 53))
     if k == "fpext":
-        return f64_bits(bits_f32(a))
+        return fbits(tt, fval(ft, a))   # exact: every value of the narrower format is one of the wider
     raise Unsupported(k)
 
 
@@ -338,7 +449,7 @@ def _ref_op(op: list, env: dict, mem: list) -> None:
         env[r] = (ty, v & ((1 << width(ty)) - 1))
     elif k == "fconst":
         _, r, ty, d = op
-        env[r] = (ty, f32_bits(bits_f64(d)) if ty == "f32" else d)
+        env[r] = (ty, d if ty == "f64" else fbits(ty, bits_f64(d)))
     elif k == "bin":
         _, kk, r, ty, a, b, ovf, ex, dj = op
         env[r] = (ty, ref_bin(kk, width(ty), env[a][1], env[b][1], ovf, ex, dj))
@@ -353,7 +464,7 @@ def _ref_op(op: list, env: dict, mem: list) -> None:
         env[r] = ("i1", ref_fcmp(p, fval(ty, env[a][1]), fval(ty, env[b][1])))
     elif k == "fneg":
         _, r, ty, a = op
-        env[r] = (ty, env[a][1] ^ (1 << (31 if ty == "f32" else 63)))
+        env[r] = (ty, env[a][1] ^ (1 << (float_bits(ty) - 1)))
     elif k == "cast":
         _, kk, r, ft, tt, a, ovf, nn = op
         env[r] = (tt, ref_cast(kk, ft, tt, env[a][1], ovf, nn))
@@ -410,6 +521,9 @@ def xty(ty: str):
         return builtin.Float32Type()
     if ty == "f64":
         return builtin.Float64Type()
+    if ty in FLOAT_FORMATS:
+        return {"f16": builtin.Float16Type, "bf16": builtin.BFloat16Type, "f80": builtin.Float80Type,
+                "f128": builtin.Float128Type}[ty]()
     if ty == "ptr":
         return llvm.LLVMPointerType()
     return builtin.IntegerType(width(ty))
@@ -590,6 +704,10 @@ def pty(t) -> str:
         return "f32"
     if isinstance(t, builtin.Float64Type):
         return "f64"
+    for name, cls in (("f16", builtin.Float16Type), ("bf16", builtin.BFloat16Type), ("f80", builtin.Float80Type),
+                      ("f128", builtin.Float128Type)):
+        if type(t) is cls:
+            return name
     if isinstance(t, llvm.LLVMPointerType):
         return "ptr"
     raise Unsupported(str(t))
@@ -639,7 +757,7 @@ def extract(module) -> list:
                 rt = pty(o.result.type)
                 if isinstance(o.value, IntegerAttr) and is_int(rt):
                     pb.append(["const", vid(o.result), rt, o.value.value.data])
-                elif isinstance(o.value, FloatAttr) and rt in ("f32", "f64"):
+                elif isinstance(o.value, FloatAttr) and rt in FLOAT_FORMATS:
                     pb.append(["fconst", vid(o.result), rt, f64_bits(float(o.value.value.data))])
                 else:
                     raise Unsupported("constant")
